@@ -1211,10 +1211,23 @@ impl Database {
             transaction_tracker: Arc::new(TransactionTracker::new(next_transaction_id)),
         };
 
-        // Restore the tracker state for any persistent savepoints
-        let txn = db.begin_write().map_err(|e| e.into_storage_error())?;
+        if let Err(err) = db.restore_persistent_savepoints() {
+            // The open is failing on a file that is already open for writing. Dropping `db`
+            // closes it, and a close normally commits the allocator state; that must not happen
+            // on top of a state that could not even be read back. Leaving the file marked as
+            // needing recovery makes the next open verify and repair it instead.
+            db.mem.mark_needs_repair();
+            return Err(err);
+        }
+
+        Ok(db)
+    }
+
+    // Restore the tracker state for any persistent savepoints
+    fn restore_persistent_savepoints(&self) -> Result<(), DatabaseError> {
+        let txn = self.begin_write().map_err(|e| e.into_storage_error())?;
         if let Some(next_id) = txn.next_persistent_savepoint_id()? {
-            db.transaction_tracker
+            self.transaction_tracker
                 .restore_savepoint_counter_state(next_id);
         }
         for id in txn.list_persistent_savepoints()? {
@@ -1228,12 +1241,12 @@ impl Database {
                     }
                 },
             };
-            db.transaction_tracker
+            self.transaction_tracker
                 .register_persistent_savepoint(&savepoint);
         }
         txn.abort()?;
 
-        Ok(db)
+        Ok(())
     }
 
     fn get_allocator_state_table(
